@@ -231,18 +231,18 @@ theorem xz_stdout_delivers (cfg : Cfg) (hB : 0 < cfg.bufSize) (hf : cfg.failFlus
     (xzFile cfg o fi out).out.flags = out.flags := by
   have hinit : (fi.initRet != .ok && fi.initRet != .streamEnd) = false := by
     rcases hi with h | h <;> simp [h]
-  have hw := coderNormal_writes cfg fi.allowTrailing fi.trailing fi.steps [] hfin
+  have hw := coderNormal_writes cfg (allowOf o fi) fi.trailing fi.steps [] hfin
   simp only [List.nil_append] at hw
-  unfold xzFile
+  unfold xzFile xzFileWith
   simp only [hk, hinit, hm, hso]
   simp only [Bool.not_true, Bool.false_eq_true, if_false, if_true]
   have hne : (Mode.decompress == Mode.test) = false := by decide
   simp only [hne, Bool.false_eq_true, if_false]
   refine ⟨?_, (append_flag_restored cfg o.noSparse .decompress out _ _).1⟩
-  cases hsucc : (coderNormal cfg fi.allowTrailing fi.trailing fi.steps []).success with
+  cases hsucc : (coderNormal cfg (allowOf o fi) fi.trailing fi.steps []).success with
   | true =>
     have := (delivered_exact cfg hB o.noSparse .decompress out
-      (coderNormal cfg fi.allowTrailing fi.trailing fi.steps []).writes).2.1
+      (coderNormal cfg (allowOf o fi) fi.trailing fi.steps []).writes).2.1
     rw [hw] at this
     exact this
   | false =>
@@ -250,11 +250,11 @@ theorem xz_stdout_delivers (cfg : Cfg) (hB : 0 < cfg.bufSize) (hf : cfg.failFlus
     have hclose : ∀ s : St, s.isStdout = true → ioClose cfg s false = ioClose cfg s true := by
       intro s hs; unfold ioClose; simp [hf, hs]
     have hio : (ioWrites cfg (openStdout o.noSparse .decompress out)
-        (coderNormal cfg fi.allowTrailing fi.trailing fi.steps []).writes).1.isStdout = true := by
+        (coderNormal cfg (allowOf o fi) fi.trailing fi.steps []).writes).1.isStdout = true := by
       rw [(ioWrites_frame cfg _ _).isStdout]; exact (openStdout_spec o.noSparse .decompress out).2.2.2.1
     rw [hclose _ hio]
     have := (delivered_exact cfg hB o.noSparse .decompress out
-      (coderNormal cfg fi.allowTrailing fi.trailing fi.steps []).writes).2.1
+      (coderNormal cfg (allowOf o fi) fi.trailing fi.steps []).writes).2.1
     rw [hw] at this
     exact this
 
@@ -263,27 +263,27 @@ theorem xz_stdout_delivers (cfg : Cfg) (hB : 0 < cfg.bufSize) (hf : cfg.failFlus
 theorem new_file_iff_complete (cfg : Cfg) (hB : 0 < cfg.bufSize) (o : Opts) (fi : FileIn) (out : Dest)
     (hm : o.mode = .decompress) (hso : o.toStdout = false) (hk : fi.fmtKnown = true) :
     (xzFile cfg o fi out).created =
-      (if (fi.initRet = .ok ∨ fi.initRet = .streamEnd) ∧ libSuccess fi.allowTrailing fi.trailing fi.steps = true
+      (if (fi.initRet = .ok ∨ fi.initRet = .streamEnd) ∧ libSuccess (allowOf o fi) fi.trailing fi.steps = true
         then some (libOutput fi.steps) else none) ∧
     (xzFile cfg o fi out).out = out := by
-  unfold xzFile
+  unfold xzFile xzFileWith
   have hne : (Mode.decompress == Mode.test) = false := by decide
   by_cases hi : fi.initRet = .ok ∨ fi.initRet = .streamEnd
   · have hinit : (fi.initRet != .ok && fi.initRet != .streamEnd) = false := by
       rcases hi with h | h <;> simp [h]
     simp only [hk, hinit, hm, hso, hne, Bool.not_true, Bool.false_eq_true, if_false, hi, true_and]
     rw [coderNormal_success]
-    cases hs : libSuccess fi.allowTrailing fi.trailing fi.steps with
+    cases hs : libSuccess (allowOf o fi) fi.trailing fi.steps with
     | false => simp
     | true =>
       have hfin : libFinal fi.steps ≠ none := by
         intro h; simp [libSuccess, h] at hs
-      have hw := coderNormal_writes cfg fi.allowTrailing fi.trailing fi.steps [] hfin
+      have hw := coderNormal_writes cfg (allowOf o fi) fi.trailing fi.steps [] hfin
       simp only [List.nil_append] at hw
       simp only [if_true, and_true]
       congr 1
       have := new_file_content cfg hB o.noSparse .decompress
-        (coderNormal cfg fi.allowTrailing fi.trailing fi.steps []).writes
+        (coderNormal cfg (allowOf o fi) fi.trailing fi.steps []).writes
       rw [this, hw]
   · have hinit : (fi.initRet != .ok && fi.initRet != .streamEnd) = true := by
       simp only [not_or] at hi; simp [hi.1, hi.2]
@@ -308,7 +308,7 @@ theorem xz_file_error_iff (cfg : Cfg) (o : Opts) (fi : FileIn) (out : Dest) (hfi
     (Msg.error ∈ (xzFile cfg o fi out).msgs ↔
       ¬ ((fi.fmtKnown = false ∧ o.mode = .decompress ∧ o.toStdout = true ∧ o.force = true) ∨
          (fi.fmtKnown = true ∧ (fi.initRet = .ok ∨ fi.initRet = .streamEnd)
-            ∧ libSuccess fi.allowTrailing fi.trailing fi.steps = true))) ∧
+            ∧ libSuccess (allowOf o fi) fi.trailing fi.steps = true))) ∧
     (Msg.warning ∈ (xzFile cfg o fi out).msgs →
       fi.fmtKnown = true ∧ (0 < fi.initWarn ∨ 0 < libWarnings fi.steps)) := by
   rw [xzFile_msgs, coderNormal_msgs]
@@ -318,10 +318,44 @@ theorem xz_file_error_iff (cfg : Cfg) (o : Opts) (fi : FileIn) (out : Dest) (hfi
   | true =>
     have hne : libFinal fi.steps = none ↔ False := ⟨fun h => hfin h, False.elim⟩
     by_cases hi : fi.initRet = .ok ∨ fi.initRet = .streamEnd
-    · cases hsu : libSuccess fi.allowTrailing fi.trailing fi.steps <;>
+    · cases hsu : libSuccess (allowOf o fi) fi.trailing fi.steps <;>
         simp [hi, hne, List.mem_replicate] <;> omega
     · simp [hi, List.mem_replicate]
       omega
+
+/-! ### Several files in one invocation -/
+
+/-- `allow_trailing_input` is per file: whatever the previous file of the invocation left in the static variable
+    (a .lz file leaves `true`), `coder_init` starts from `false`; only `--single-stream` and a detected .lz format set it. -/
+theorem allow_trailing_not_inherited (o : Opts) (fi : FileIn) (previous : Bool) :
+    coderInitFlag o fi previous = allowOf o fi ∧
+    (allowOf o fi = true ↔ (o.single = true ∨ (fi.fmtKnown = true ∧ fi.isLzip = true))) := by
+  refine ⟨rfl, ?_⟩
+  cases h1 : o.single <;> cases h2 : fi.fmtKnown <;> cases h3 : fi.isLzip <;>
+    simp [allowOf, coderInitFlag, resetAllowTrailing, h1, h2, h3]
+
+/-- **multi_file_is_fold.** A run over several files is the fold of single-file runs over the same standard output:
+    each file is decoded, judged (trailing-input rule included), written and reported exactly as if it were the only
+    file — independent of the files before it and of the initial value of the static flag; the outputs concatenate,
+    the messages (hence the exit status: the worst per-file status) accumulate. -/
+theorem multi_file_is_fold (cfg : Cfg) (o : Opts) (files : List FileIn) :
+    ∀ (previous : Bool) (out : Dest), xzRunFrom cfg o previous files out = xzRunFold cfg o files out := by
+  induction files with
+  | nil => intro _ _; rfl
+  | cons fi rest ih =>
+    intro previous out
+    simp only [xzRunFrom, xzRunFold, xzFile, (allow_trailing_not_inherited o fi previous).1, ih]
+
+/-- The exit status of a multi-file run is the worst per-file status: 1 iff some file reported an error, else 2 iff some
+    file reported a warning (and no `--no-warn`), else 0. -/
+theorem multi_file_exit (cfg : Cfg) (o : Opts) (files : List FileIn) (out : Dest) :
+    (xzExit o (xzRun cfg o files out) = 1 ↔ ∃ m ∈ (xzRunFold cfg o files out).msgs, m = Msg.error) ∧
+    (xzExit o (xzRun cfg o files out) = 0 ↔
+      (Msg.error ∉ (xzRunFold cfg o files out).msgs ∧ (Msg.warning ∉ (xzRunFold cfg o files out).msgs ∨ o.noWarn = true))) := by
+  unfold xzExit xzRun
+  rw [multi_file_is_fold]
+  obtain ⟨h0, h1, _⟩ := exit_status_iff o.noWarn (xzRunFold cfg o files out).msgs
+  exact ⟨by simpa using h1, h0⟩
 
 /-- xzdec / lzmadec: exit status 0 iff every file decodes to LZMA_STREAM_END (lzmadec: and nothing trails), otherwise 1;
     on success standard output holds every file's output in order. Whatever a failing file produced before its
